@@ -87,6 +87,11 @@ PROFILES = {
     ],
 }
 
+PROFILES['C11'] = [
+    ('every-variant-betting-and-dealing', 360, 3600, dict(rake_p=0.0), dict(probe_level=1, illegal=0.1, raise_=0.45, fold=0.08)),
+    ('every-variant-short-stacks-showdowns', 180, 1800, dict(rake_p=0.0, stacks='short'), dict(probe_level=1, illegal=0.05, raise_=0.5, allin=0.2, fold=0.04)),
+]
+
 NEEDS = {
     'C01': ['uncalled_bet_returned', 'two_pots_snapshot', 'rake_taken', 'op:PUSH', 'op:PULL', 'hand_finished'],
     'C02': ['push_side_pot', 'tie_split', 'push_second_hand_type', 'push_second_board'],
@@ -104,7 +109,7 @@ NEEDS = {
 CUSTOM = {'spec_fn': 'custom'}
 
 
-def trace_part(run: Run, prop: str):
+def trace_part(run: Run, prop: str, env=None):
     rng = random.Random(run.seed * 7919 + sum(map(ord, prop)))
     tid = 1
     for name, nq, nt, skw, pkw in PROFILES[prop]:
@@ -113,7 +118,7 @@ def trace_part(run: Run, prop: str):
         fn = games.random_custom_spec if skw.pop('custom', False) else None
         recs = T.gen_hands(run, rng, n, tid, skw, pkw, spec_fn=fn)
         tid += n
-        res = T.validate(run, recs, f'{prop}_{name}', prop)
+        res = T.validate(run, recs, f'{prop}_{name}', prop, env=env)
         for r in recs[:2]:
             run.sample(T.short_hand(r), limit=4)
         # distinct non-trivial: distinct (variant, n, operation kinds, outcome pattern) hands that finished
@@ -279,3 +284,14 @@ def check_C16(run: Run):
                 'actions (Notation!PhhActions), cards, stacks and payoffs; text idempotence and field equality are byte/object '
                 'comparisons made by the harness and required TRUE by TLC (not decided by the specification)')
     run.need('partial_history', 'terminal_history', 'discard', 'op:BI')
+
+
+def check_C11(run: Run):
+    # the model is instantiated with the SPECIFICATION's record of each variant (spec/Variants.tla), not with the configuration
+    # read from the implementation; plus the direct comparison of the created configuration with that record
+    trace_part(run, 'C11', env={'CFGSRC': 'spec'})
+    missing = [v for v in games.VARIANTS if not run.mech.get('variant:' + v)]
+    if missing:
+        from .runner import Vacuous
+        raise Vacuous(f'variants never played: {missing}')
+    run.rule += ' every hand is validated against the model instantiated with Variants!Def(name, small bet, big bet)'
